@@ -16,7 +16,7 @@ RULE = (
     "seeded prior configurations: single priors with 1-4 variables at random indices of a longer theta; joint priors over "
     "random partitions/permutations of 1-8 indices among 1-5 components of mixed and repeated type (same-type merging), "
     "distinct hyper-parameters per coordinate; theta inside and outside supports; non-trivial = indices not in ascending "
-    "contiguous order or >= 2 components; distinct = distinct (layout, hyper-parameters, theta)"
+    "contiguous order or >= 2 components; joint priors in which one component is a user-written sub-class (truncated Gaussian, shifted exponential, tilted uniform) of a library prior;  distinct = distinct (layout, hyper-parameters, theta)"
 )
 ASSUMPTIONS = [
     "scipy.stats.norm/expon/uniform are trusted references",
@@ -24,7 +24,7 @@ ASSUMPTIONS = [
 ]
 TIMEOUT = {"quick": 300, "thorough": 1500}
 REQUIRED = {"post:joint_call": 100, "stat_tests": 100, "cases:permuted_layout": 30, "cases:merged_same_type": 30,
-            "guess_selections": 10, "normalisation_integrals": 10, "cases:large_or_extreme": 20, "cases:bare_prior_posterior": 30}
+            "guess_selections": 10, "normalisation_integrals": 10, "cases:large_or_extreme": 20, "cases:bare_prior_posterior": 30, "cases:user_subclass_component": 60}
 
 ZERO = -1e99  # the library represents zero density by -1e100
 
@@ -281,6 +281,152 @@ def check_object(rec, obj, layout, N, rng, tag, n_draws, priors):
                      lambda: f"{tag} sample(): the coordinates of a draw are correlated although the density is a product", ctx)
 
 
+
+# -------------------------------------------------------------- user-written refinements of the library's prior classes
+def user_prior_classes(priors):
+    """Sub-classes a user writes to get a custom prior into a JointPrior (which accepts the three library families only):
+    each overrides value, gradient, draws and bounds consistently."""
+    from scipy.special import log_ndtr
+
+    class TruncatedGaussian(priors.GaussianPrior):
+        def __init__(self, mean, sigma, lower, variable_indices):
+            super().__init__(mean=mean, sigma=sigma, variable_indices=variable_indices)
+            self.lower = np.atleast_1d(lower).astype(float)
+            self.log_mass = float(log_ndtr(-(self.lower - self.mean) / self.sigma).sum())
+            self.bounds = [(float(lo), None) for lo in self.lower]
+
+        def __call__(self, theta):
+            if (theta[self.variables] < self.lower).any():
+                return -1e100
+            return super().__call__(theta) - self.log_mass
+
+        def gradient(self, theta):
+            return np.where(theta[self.variables] >= self.lower, super().gradient(theta), 0.0)
+
+        def sample(self):
+            while True:
+                d = super().sample()
+                if (d >= self.lower).all():
+                    return d
+
+    class ShiftedExponential(priors.ExponentialPrior):
+        def __init__(self, beta, shift, variable_indices):
+            super().__init__(beta=beta, variable_indices=variable_indices)
+            self.shift = np.atleast_1d(shift).astype(float)
+            self.bounds = [(float(v), None) for v in self.shift]
+
+        def __call__(self, theta):
+            t = np.array(theta, dtype=float)
+            t[self.variables] = t[self.variables] - self.shift
+            return super().__call__(t)
+
+        def sample(self):
+            return super().sample() + self.shift
+
+    class TiltedUniform(priors.UniformPrior):
+        """density proportional to exp(k (x - lower)) on [lower, upper]"""
+
+        def __init__(self, lower, upper, tilt, variable_indices):
+            super().__init__(lower=lower, upper=upper, variable_indices=variable_indices)
+            self.tilt = np.atleast_1d(tilt).astype(float)
+            w = self.upper - self.lower
+            self.log_norm = float(np.log(np.expm1(self.tilt * w) / self.tilt).sum())
+
+        def __call__(self, theta):
+            v = super().__call__(theta)
+            if v < -1e99:
+                return v
+            return float((self.tilt * (theta[self.variables] - self.lower)).sum()) - self.log_norm
+
+        def gradient(self, theta):
+            return self.tilt.copy()
+
+        def sample(self):
+            u = priors.rng.uniform(size=self.lower.size)
+            return self.lower + np.log1p(u * np.expm1(self.tilt * (self.upper - self.lower))) / self.tilt
+
+    return TruncatedGaussian, ShiftedExponential, TiltedUniform
+
+
+def user_subclass_cases(job, rec, rng, priors):
+    """A joint prior equals the sum of the components it was given - also when one of them is a user-written sub-class of a library prior."""
+    TG, SE, TU = user_prior_classes(priors)
+    for c in range(job.get("n_user", 12)):
+        N = int(rng.integers(2, 7))
+        perm = [int(i) for i in rng.permutation(N)]
+        which = str(rng.choice(["G", "E", "U"]))
+        k = int(rng.integers(1, min(3, N)))     # coordinates of the user-written component
+        mine, rest = perm[:k], perm[k:]
+        sc = 10.0 ** rng.uniform(-2, 2)
+        if which == "G":
+            mu, sg = rng.normal(size=k) * sc, sc * rng.uniform(0.5, 2, size=k)
+            user = TG(mu, sg, mu + sg * rng.uniform(-1, 1, size=k), mine)
+            lo_support = user.lower
+        elif which == "E":
+            user = SE(sc * rng.uniform(0.5, 2, size=k), rng.normal(size=k) * sc * 3, mine)
+            lo_support = user.shift
+        else:
+            lo = rng.normal(size=k) * sc
+            user = TU(lo, lo + sc * rng.uniform(0.5, 2, size=k), rng.uniform(0.5, 3, size=k) / sc, mine)
+            lo_support = user.lower
+        # the other coordinates go to library components of the other two families (the user's component is the only one of its family)
+        others = [f for f in "GEU" if f != which]
+        comps, cut = [user], int(rng.integers(0, len(rest) + 1))
+        for fam, idx in zip(others, [rest[:cut], rest[cut:]]):
+            if idx:
+                comps.append(build_component(priors, fam, [Coord(rng, fam) for _ in idx], idx, rng))
+        if len(comps) == 1:
+            comps.append(build_component(priors, others[0], [Coord(rng, others[0])], [rest[0]], rng)) if rest else None
+        covered = sorted(i for cmp_ in comps for i in cmp_.variables)
+        if covered != list(range(N)):
+            continue
+        order = [int(i) for i in rng.permutation(len(comps))]
+        ctx = {"user_subclass": type(user).__name__, "N": N, "its_indices": mine, "component_order": order}
+        rec.context = ctx
+        jp = guarded(priors.JointPrior, [comps[i] for i in order], N)
+        if isinstance(jp, Raised):
+            rec.violation("raised", f"JointPrior constructor raised {jp!r}", ctx)
+            continue
+        rec.count("cases:user_subclass_component")
+        rec.case(digest("user", which, N, mine, order, float(sc)), nontrivial=True)
+        for rep in range(6):
+            theta = np.zeros(N)
+            for cmp_ in comps:
+                d = np.asarray(cmp_.sample(), float)
+                theta[np.asarray(cmp_.variables)] = d
+            if rep == 5:
+                theta[mine[0]] = lo_support[0] - abs(sc)      # outside the user's support
+            want = sum(float(cmp_(theta)) for cmp_ in comps)
+            got = guarded(jp, theta)
+            rec.count("post:joint_call")
+            tol = 1e-12 * max(1.0, sum(abs(float(cmp_(theta))) for cmp_ in comps))
+            rec.check((not isinstance(got, Raised)) and abs(float(got) - want) <= tol, "joint-not-sum-of-components",
+                      lambda: f"JointPrior value {got!r} differs from the sum of the log-densities of the components it was given {want!r} "
+                              f"(one of them a user-written sub-class: {type(user).__name__})", ctx)
+            if rep < 5:
+                gw = np.zeros(N)
+                for cmp_ in comps:
+                    gw[np.asarray(cmp_.variables)] = np.asarray(cmp_.gradient(theta), float)
+                gg = guarded(jp.gradient, theta)
+                rec.check((not isinstance(gg, Raised)) and np.allclose(np.asarray(gg, float), gw, rtol=1e-12, atol=0), "joint-gradient-not-of-components",
+                          lambda: f"JointPrior gradient {gg!r} differs from the component gradients {gw!r} ({type(user).__name__})", ctx)
+        wb = [None] * N
+        for cmp_ in comps:
+            for i, b in zip(cmp_.variables, cmp_.bounds):
+                wb[i] = b
+        rec.check(bounds_equal(list(jp.bounds), wb), "joint-bounds-not-of-components",
+                  lambda: f"JointPrior bounds {jp.bounds} differ from the bounds of the components {wb}", ctx)
+        for _ in range(40):
+            d = guarded(jp.sample)
+            if isinstance(d, Raised):
+                rec.violation("raised", f"JointPrior.sample raised {d!r}", ctx)
+                break
+            d = np.asarray(d, float)
+            if not rec.check(bool(np.all(d[mine] >= lo_support)) and float(jp(d)) > ZERO, "draw-outside-support",
+                             lambda: f"JointPrior.sample returned {d}: outside the support of the {type(user).__name__} component", ctx):
+                break
+
+
 def run_job(job, rec):
     import inference.priors as priors
     from inference.posterior import Posterior
@@ -289,6 +435,7 @@ def run_job(job, rec):
 
     rng = mk_rng(job["seed"], "C06", job["j"])
     priors.rng = np.random.default_rng(rng.integers(2**63))
+    user_subclass_cases(job, rec, mk_rng(job["seed"], "C06-user", job["j"]), priors)
 
     # ------------------------------------------------ single prior objects
     for c in range(job["n_single"]):
